@@ -62,7 +62,7 @@ class Contract:
     def __init__(self, key, prop, types=None, returns=None, requires=(), ensures=(), ensures_exc=(),
                  raises=None, modifies=(), effects=(), loops=None, locals=None, inline=False, funcs=None,
                  ghost=None, mode="prove", unroll=None, comps=None, name=None, setup=(), max_paths=None,
-                 frame=None, lock=None, replay=None, timeout_ms=None, axioms=(), post_setup=(), pure_result=None, asserts=None):
+                 frame=None, lock=None, replay=None, timeout_ms=None, axioms=(), post_setup=(), pure_result=None, asserts=None, nonlinear=False):
         self.key = key
         self.prop = prop if isinstance(prop, (list, tuple)) else [prop]
         self.short = name or key.split(":", 1)[1]
@@ -91,6 +91,7 @@ class Contract:
         self.axioms = list(axioms)
         self.post_setup = list(post_setup)
         self.asserts = dict(asserts or {})
+        self.nonlinear = nonlinear
         self.pure_result = pure_result
         if pure_result is not None:
             self.ensures.append(("pure-result", "result == (%s)" % pure_result))
@@ -233,6 +234,7 @@ class Verifier:
         self.max_depth = 12
         self.no_if_conversion = bool(os.environ.get("PYVC_NO_IFCONV"))
         self.no_patterns = bool(os.environ.get("PYVC_NO_PATTERNS"))
+        self.nonlinear = bool(os.environ.get("PYVC_NONLINEAR"))
         self.feas_timeout_ms = 400
         self.solver_s = 0.0
         self.queries = 0
@@ -302,6 +304,24 @@ class Verifier:
         self.note_assumption("x**y: only 0<x => x**y>0, 0<x<=1 & y>=0 => x**y<=1, x**0==1 are used")
         return r
 
+    def mul_real(self, a, b):
+        """x*y with two symbolic real operands is the uninterpreted `mulr` (keeps goals linear); every
+        arithmetic fact about it is supplied by a ghost lemma proved with true multiplication (R.lemma)."""
+        sa, sb = z3.simplify(a), z3.simplify(b)
+        if self.nonlinear or z3.is_rational_value(sa) or z3.is_rational_value(sb):
+            return a * b
+        f = z3.Function("mulr", z3.RealSort(), z3.RealSort(), z3.RealSort())
+        self.note_assumption("products/quotients of two symbolic reals are uninterpreted (mulr/divr); arithmetic facts about "
+                             "them come only from ghost lemmas proved over true real arithmetic")
+        return f(a, b)
+
+    def div_real(self, a, b):
+        sb = z3.simplify(b)
+        if self.nonlinear or z3.is_rational_value(sb):
+            return a / b
+        f = z3.Function("divr", z3.RealSort(), z3.RealSort(), z3.RealSort())
+        return f(a, b)
+
     def floordiv_term(self, I, a, b):
         """a // b with a symbolic divisor: an uninterpreted function plus sound linear facts
         (keeps the goals out of nonlinear integer arithmetic; equal operands give equal results)."""
@@ -314,6 +334,16 @@ class Verifier:
             I.path.assume(z3.ForAll([x, y], z3.Implies(z3.And(y > 0, x < 0), f(x, y) < 0), patterns=[f(x, y)]))
             self.note_assumption("x // y with symbolic y is an uninterpreted function constrained only by "
                                  "0 <= x//y <= x (x>=0,y>0) and x//y < 0 (x<0,y>0)")
+        return f(a, b)
+
+    def mod_term(self, I, a, b):
+        f = z3.Function("py_mod", z3.IntSort(), z3.IntSort(), z3.IntSort())
+        if not getattr(I.path, "_md_axiom", False):
+            I.path._md_axiom = True
+            x, y = z3.Ints("md_x md_y")
+            I.path.assume(z3.ForAll([x, y], z3.Implies(y > 0, z3.And(f(x, y) >= 0, f(x, y) < y)), patterns=[f(x, y)]))
+            I.path.assume(z3.ForAll([x], f(x, 1) == 0, patterns=[f(x, 1)]))
+            self.note_assumption("x % y with symbolic y is an uninterpreted function constrained only by 0 <= x%y < y (y>0), x%1 == 0")
         return f(a, b)
 
     def round_term(self, I, x, nd):
@@ -656,6 +686,8 @@ class Verifier:
         self.solver_s = 0.0
         self.queries = 0
         saved_to = self.timeout_ms
+        saved_nl = self.nonlinear
+        self.nonlinear = self.nonlinear or c.nonlinear
         if c.timeout_ms:
             self.timeout_ms = c.timeout_ms
         mod, cls, node = frontend.find_function(c.key, self.repo)
@@ -677,6 +709,7 @@ class Verifier:
                     break
         finally:
             self.timeout_ms = saved_to
+            self.nonlinear = saved_nl
         if self.exits == 0 and not self.errors:
             self.errors.append("vacuous: no path reaches a function exit (contradictory requires?)")
         return {
@@ -784,7 +817,7 @@ class Verifier:
                 if c.returns is not None:
                     result = I.coerce_value(result, self.types.parse(c.returns))
                 for st in c.post_setup:
-                    I.exec_ghost(st, env, extra={"result": result})
+                    I.exec_ghost(st, env, extra={"result": result}, skip_unbound=True)
                 for nm, src in c.ensures:
                     phi = I.eval_spec(src, env, extra={"result": result})
                     path.prove(phi, "%s/post:%s" % (c.short, nm), "post", where=src)
@@ -810,7 +843,7 @@ class Verifier:
             path.prove(I.eval_spec(src, env), "%s/post-exc:%s" % (c.short, nm), "post", where=src)
 
 
-def exec_ghost(self, st, env, extra=None):
+def exec_ghost(self, st, env, extra=None, skip_unbound=False):
     node = ast.parse(st.strip()).body
     e2 = Env(env, env.module)
     if extra:
@@ -822,7 +855,7 @@ def exec_ghost(self, st, env, extra=None):
     try:
         self.exec_block(node, e2)
     except PyRaise as pr:
-        if pr.exc.cls != "NameError":
+        if pr.exc.cls != "NameError" or not skip_unbound:
             raise Unsupported("ghost statement raised %s: %s" % (pr.exc.cls, st))
         # a ghost statement that mentions a local not bound on this path is skipped
     finally:
